@@ -59,6 +59,21 @@ def extra_cases(names, step):
             c["re"] = {"record_interruptions": True}
             c["probe"] = True
             yield c
+            # two suspensions one after the other (the second long after the first was released)
+            for d in (30, 60):
+                c = corpus.base_case(name)
+                c["stages"] = [
+                    {
+                        "do": "call",
+                        "inj": [
+                            {"at": k, "do": "suspend", "release_after": 0.2, "just": "first"},
+                            {"at": k + d, "do": "suspend", "release_after": 0.2, "just": "second"},
+                        ],
+                    },
+                    {"do": "resume"},
+                ]
+                c["probe"] = True
+                yield c
 
 
 def run(ctx):
